@@ -1,5 +1,6 @@
 # Much of this is borrowed from Python's ``Lib/dis.py``.
 
+import types
 from math import copysign
 from typing import Dict
 
@@ -123,5 +124,12 @@ def better_repr(v) -> str:
             return "[%s,]" % better_repr(v[0])
         return "[%s]" % ", ".join(better_repr(i) for i in v)
     # TODO: elif deal with sets and dicts
+    elif isinstance(v, types.CodeType):
+        # Show a native code object the way the portable one for this
+        # version is shown, so listings do not depend on whether the
+        # bytecode was loaded by the interpreter's own marshal.
+        from xdis.codetype import codeType2Portable
+
+        return repr(codeType2Portable(v))
     else:
         return repr(v)
